@@ -211,7 +211,7 @@ func (x *e1) newRec(spec *RPCSpec) *rpcRec {
 // setup builds the parties and starts all initial tasks (parked).
 func (x *e1) setup() {
 	c := x.prog.Cfg
-	x.net = &Net{D: x.d, RT: x.rt, Ch: x.ch, TCPStyle: c.TCP, EmptyReads: c.EmptyReads}
+	x.net = &Net{D: x.d, RT: x.rt, Ch: x.ch, TCPStyle: c.TCP, EmptyReads: c.EmptyReads, EmptyHeavy: c.EmptyHeavy}
 	x.cep, x.sep = x.net.Pipe("conn0", c.NetCap)
 	x.monC = &WireMonitor{Name: "client"}
 	x.monS = &WireMonitor{Name: "server"}
@@ -278,7 +278,9 @@ func (x *e1) setup() {
 			for _, t := range x.rt.Tasks() {
 				// goroutines that have signalled completion and are merely returning are
 				// runnable; a goroutine that is still blocked has not been torn down
-				if strings.HasPrefix(t.Name, "srv/") && (t.State == verifsim.StWaiting || t.State == verifsim.StChan) {
+				// (a per-connection goroutine that has not even started counts too)
+				notStarted := strings.HasPrefix(t.Name, "srv/track") && !strings.Contains(strings.TrimPrefix(t.Name, "srv/"), "/") && (t.State == verifsim.StStarting || (t.State == verifsim.StReady && t.Label == "start"))
+				if strings.HasPrefix(t.Name, "srv/") && (t.State == verifsim.StWaiting || t.State == verifsim.StChan || notStarted) {
 					x.viol("serve-order", "Serve returned while a goroutine it started is still alive: "+x.roleOfTask(t.Name)+"@"+whereClass(t.Label), t.Name)
 				}
 			}
@@ -422,6 +424,12 @@ func (x *e1) respBytes(r *RPCSpec) []byte { return msgBytes(r.Idx, dirS2C, 0, se
 func (x *e1) runClientRPC(r *rpcRec) {
 	spec := r.Spec
 	ctx, cancel := context.WithCancel(context.Background())
+	if spec.Deadline {
+		// a context that ends the way an expired deadline does (the library only
+		// looks at Done() and Err())
+		dc := &endCtx{Context: context.Background(), done: make(chan struct{})}
+		ctx, cancel = dc, func() { dc.end(context.DeadlineExceeded) }
+	}
 	r.cancel = func() {
 		if !r.Cancelled {
 			r.Cancelled = true
@@ -563,6 +571,9 @@ func (x *e1) execOp(sd *sideRec, op Op) {
 		if op.Bad && len(b) > 0 {
 			b[0] = 0xEE // the receiver's Unmarshal refuses it
 		}
+		if op.Unenc && len(b) > 0 {
+			b[0] = 0xEF // the sender's Marshal refuses it
+		}
 		rec := &sendRec{Op: op, Start: x.d.Step, Bytes: b}
 		sd.Sends = append(sd.Sends, rec)
 		termAtStart := x.terminated(st)
@@ -579,6 +590,9 @@ func (x *e1) execOp(sd *sideRec, op Op) {
 		}
 		if termAtStart && r.Cancelled && sd.client && rec.Err == nil {
 			x.viol("cancel-later-op", fmt.Sprintf("send issued on a cancelled, terminated rpc succeeded mode=%s", x.cancelMode()), fmt.Sprintf("rpc%d %s", k, op))
+		}
+		if op.Unenc && rec.Err == nil {
+			x.viol("delivery", "a send whose message cannot be encoded returned nil", fmt.Sprintf("rpc%d %s", k, op))
 		}
 		rec.Done, rec.End = true, x.d.Step
 		x.checkCancelledCall(sd, "MsgSend", rec.Start, rec.Err)
@@ -856,6 +870,11 @@ func (x *e1) checkCancelledCall(sd *sideRec, verb string, start int, err error) 
 		if sd.ClosedByMe {
 			return // the application's own Close races with the cancel: either error is fine
 		}
+		// (when the connection went away for another reason first, the manager cancels the stream with context.Canceled)
+		connGone := x.phase == "q4" || x.serveDone || x.sep.IsClosed() || x.cep.IsClosed() || x.ioFired() || x.transportClosedByHarness() || x.closeStep > 0 || connClosed(x.conn)
+		if _, srvCancel := x.did["serve-cancel"]; err != nil && isCtxErr(err) && r.ctx.Err() != nil && !errors.Is(err, r.ctx.Err()) && !srvCancel && !connGone {
+			x.viol("cancel-error", fmt.Sprintf("receive blocked at cancel reports a different context error than the context's own mode=%s", x.cancelMode()), fmt.Sprintf("got %v want %v", err, r.ctx.Err()))
+		}
 		if err == nil || !isCtxErr(err) {
 			// a message or another terminal event may legitimately win the race;
 			// only a non-context *error* that is not end-of-stream/handler error is wrong
@@ -879,3 +898,19 @@ func (x *e1) checkCancelledCall(sd *sideRec, verb string, start int, err error) 
 	}
 }
 
+
+// endCtx is a context the harness ends with an error of its choice.
+type endCtx struct {
+	context.Context
+	done chan struct{}
+	err  error
+}
+
+func (c *endCtx) Done() <-chan struct{} { return c.done }
+func (c *endCtx) Err() error           { return c.err }
+func (c *endCtx) end(err error) {
+	if c.err == nil {
+		c.err = err
+		close(c.done)
+	}
+}
